@@ -7,9 +7,17 @@
 (* is also checked against the properties (the design is checked on these real-size schedules too).                     *)
 EXTENDS Recovery, Sequences, Json
 CONSTANTS Depth, MaxPk, GSizes, GDts, GDelays, GCes, GSpaces, GFlagSet, Roles, Ops, BurstMode,
+          Script,    \* <<>> or, per step, the set of operations allowed at that step (all-paths profiles)
           Start      \* "fresh": handshake not started; "est": after the handshake (the prefix of every schedule performs it)
 VARIABLE hist
 
+ScriptNone == <<>>
+\* three sends, a pause, one ACK frame, the deadline handling, a quota request
+ScriptCc == <<{"send"}, {"send"}, {"send"}, {"adv"}, {"ack"}, {"tick"}, {"quota"}>>
+ScriptCc2 == <<{"send"}, {"send"}, {"send"}, {"adv"}, {"ack"}, {"adv"}, {"tick", "ack"}, {"quota"}>>
+\* handshake: a phase, sends in any space, a pause, then a tick / ACK / discard, and the deadline handling
+ScriptHs == <<{"phase"}, {"send"}, {"send", "phase"}, {"adv"}, {"tick", "acktop", "discard"}, {"tick"}>>
+ScriptHs2 == <<{"phase"}, {"send"}, {"send", "phase"}, {"adv"}, {"tick", "acktop", "discard", "send"}, {"adv"}, {"tick"}>>
 AllFlags == <<<<TRUE, TRUE>>, <<FALSE, TRUE>>, <<FALSE, FALSE>>>>
 Flags == {AllFlags[k] : k \in GFlagSet}
 B(x) == IF x THEN 1 ELSE 0
@@ -37,38 +45,39 @@ GenInit == /\ now = 0
            /\ shrinkAt = NONE /\ probes = 0 /\ ptoPrev = NoPto /\ grant = 0 /\ dead = FALSE
 Steps == Len(hist) - Len(Pre(ph.server))
 InBurst == BurstMode /\ grant >= Mtu
+Allowed(op) == op \in Ops /\ (Script = <<>> \/ (Steps + 1 <= Len(Script) /\ op \in Script[Steps + 1]))
 
 GenNext ==
   /\ Steps < Depth
-  /\ \/ /\ "send" \in Ops /\ ~InBurst
+  /\ \/ /\ Allowed("send") /\ ~InBurst
         /\ \E sp \in GSpaces \ ph.gone, sz \in GSizes, f \in Flags :
              /\ N(pk, sp) < MaxPk
              /\ Send(sp, sz, f[1], f[2], FALSE, D_Send(sp, sz, f[1], f[2]))
              /\ H(<<"send", sp, sz, B(f[1]), B(f[2])>>)
-     \/ /\ "gsend" \in Ops /\ grant >= Mtu
+     \/ /\ Allowed("gsend") /\ grant >= Mtu
         /\ \E sp \in GSpaces \ ph.gone :
              /\ N(pk, sp) < MaxPk
              /\ Send(sp, Mtu, TRUE, TRUE, TRUE, D_Send(sp, Mtu, TRUE, TRUE))
              /\ H(<<"gsend", sp>>)
-     \/ /\ "burst" \in Ops /\ ~InBurst
+     \/ /\ Allowed("burst") /\ ~InBurst
         /\ \E sp \in GSpaces \ ph.gone, k \in {4, 12} : Quota([D_Quota EXCEPT !.q = 0]) /\ H(<<"burst", sp, k>>)
-     \/ /\ "quota" \in Ops /\ ~InBurst /\ Quota(D_Quota) /\ H(<<"quota">>)
-     \/ /\ "ack" \in Ops /\ ~InBurst
+     \/ /\ Allowed("quota") /\ ~InBurst /\ Quota(D_Quota) /\ H(<<"quota">>)
+     \/ /\ Allowed("ack") /\ ~InBurst
         /\ \E sp \in GSpaces \ ph.gone : \E S \in SUBSET (DOMAIN pk[sp]) \ {{}} : \E d \in GDelays, ce \in {NONE} \cup GCes :
              /\ AckRcvd(sp, S, d, ce, D_Ack(sp, S, d, ce))
              /\ H(<<"ack", sp, SetToSeq(S), d, ce>>)
-     \/ /\ "acktop" \in Ops /\ ~InBurst
+     \/ /\ Allowed("acktop") /\ ~InBurst
         /\ \E sp \in GSpaces \ ph.gone, n \in {1, 3, 100}, d \in GDelays :
              /\ N(pk, sp) > 0
              /\ AckRcvd(sp, TopN(sp, n), d, NONE, D_Ack(sp, TopN(sp, n), d, NONE))
              /\ H(<<"acktop", sp, n, d>>)
-     \/ /\ "adv" \in Ops
+     \/ /\ Allowed("adv")
         /\ \E dt \in GDts \cup (IF c.timer # NONE /\ c.timer >= now THEN {c.timer - now, c.timer - now + 1, c.timer - now + MaxAckDelay + Gran + 1} \ {0} ELSE {}) :
              Advance(dt) /\ H(<<"adv", dt>>)
-     \/ /\ "tick" \in Ops /\ ~InBurst /\ Tick(D_Tick) /\ H(<<"tick">>)
-     \/ /\ "discard" \in Ops /\ ~InBurst
+     \/ /\ Allowed("tick") /\ ~InBurst /\ Tick(D_Tick) /\ H(<<"tick">>)
+     \/ /\ Allowed("discard") /\ ~InBurst
         /\ \E sp \in {1, 2} \ ph.gone : Discard(sp, D_DiscardCall(sp)) /\ H(<<"discard", sp>>)
-     \/ /\ "phase" \in Ops /\ ~InBurst
+     \/ /\ Allowed("phase") /\ ~InBurst
         /\ \E w \in {"hskey", "hsack", "conf", "grant", "limit"} :
              /\ CASE w = "hskey" -> ~ph.hsKey
                   [] w = "hsack" -> ~ph.hsAck /\ ~ph.server
